@@ -228,6 +228,29 @@ pub fn execute(ctx: &mut Ctx, s: &Scenario) -> Outcome {
         }
         // compare() between original and reloaded: nothing, except changed_name for exactly the truncated ids
         check_compare(&mut out, what, &a, ob, &trunc_terms, &trunc_genes);
+        // second generation: what was loaded serialises again (under another hash schedule, i.e. another record
+        // order) and loads to the same observation — nothing is lost only on the second trip
+        if via_file && s.aux_seed % 3 == 0 {
+            set_hash((0, s.aux_seed ^ 0x2222));
+            match guarded(|| ob.as_bytes()) {
+                Ok(bytes2) => {
+                    let c = load_bytes(ctx, &bytes2, false);
+                    out.mixin(tag(&c.describe()));
+                    match &c {
+                        Built::Ok(oc) => {
+                            out.ontologies += 1;
+                            ctx.counters.add("probe.second_generation_round_trips", 1);
+                            let obs_c = observe(oc);
+                            for dd in diff(&obs_b, &obs_c, IcCmp::Bits) {
+                                out.violate(P, format!("second-generation-differs:{}", class_of(&dd)), format!("as_bytes(from_bytes(as_bytes(A))): {} [{}] first reload {} second reload {}", dd.field, dd.key, crate::obs::clip(&dd.a), crate::obs::clip(&dd.b)));
+                            }
+                        }
+                        other => out.violate(P, "loader-rejects-own-bytes", format!("second generation: {}", other.describe())),
+                    }
+                }
+                Err(p) => out.violate(P, "as_bytes-panicked", format!("second generation: {p}")),
+            }
+        }
     }
     out.nontrivial = out.ontologies >= 2;
     out.fingerprint = mix2(
